@@ -44,7 +44,8 @@ theorem accepted_iff_nodup (ps : List DPol) : accepted ps = true ↔ (ps.map (·
 def plain (p : DPol) : Bool := isTransparent p || (remedyOf p).isSome
 
 theorem stepPol_transparent (cap : CapFn) (url method : String) (hs : List (String × String)) (t : Nat)
-    (p : DPol) (s : DState) (h : isTransparent p = true) : stepPol cap url method hs t p s = (s, .pass) := by
+    (p : DPol) (s : DState) (h : isTransparent p = true) :
+    ∃ rep, stepPol cap url method hs t p s = (s, .pass, none, rep) := by
   unfold isTransparent at h
   unfold stepPol
   split <;> simp_all
@@ -52,14 +53,14 @@ theorem stepPol_transparent (cap : CapFn) (url method : String) (hs : List (Stri
 theorem stepPol_throttle (cap : CapFn) (url method : String) (hs : List (String × String)) (t : Nat)
     (p : DPol) (s : DState) (r : Remedy) (h : remedyOf p = some r) :
     stepPol cap url method hs t p s
-      = ({ s with lim := (pluginStep cap s.lim r hs t).1 }, toDAns (pluginStep cap s.lim r hs t).2) := by
+      = ({ s with lim := (pluginStep cap s.lim r hs t).1 }, toDAns (pluginStep cap s.lim r hs t).2, none, []) := by
   unfold remedyOf at h
   unfold stepPol
   split at h <;> simp_all
 
 theorem runChain_no_throttle (cap : CapFn) (url method : String) (hs : List (String × String)) (t : Nat)
     (l : List DPol) (s : DState) (ans : DAns) (hp : l.all plain = true) (h : l.filterMap remedyOf = []) :
-    runChain cap url method hs t l s ans = (s, ans) := by
+    runChain cap url method t l s hs ans = (s, ans) := by
   induction l generalizing s ans with
   | nil => rfl
   | cons p ps ih =>
@@ -69,7 +70,8 @@ theorem runChain_no_throttle (cap : CapFn) (url method : String) (hs : List (Str
       simp only [List.filterMap_cons, hr] at h
       have htr : isTransparent p = true := by
         have := hp.1; simp only [plain, hr, Option.isSome_none, Bool.or_false] at this; exact this
-      simp only [runChain, stepPol_transparent cap url method hs t p s htr]
+      obtain ⟨rep, hst⟩ := stepPol_transparent cap url method hs t p s htr
+      simp only [runChain, hst]
       have : (if ans == DAns.pass then DAns.pass else ans) = ans := by
         by_cases ha : ans = .pass <;> simp [ha]
       rw [this]
@@ -78,7 +80,7 @@ theorem runChain_no_throttle (cap : CapFn) (url method : String) (hs : List (Str
 
 theorem runChain_single_throttle (cap : CapFn) (url method : String) (hs : List (String × String)) (t : Nat)
     (l : List DPol) (s : DState) (r : Remedy) (hp : l.all plain = true) (h : l.filterMap remedyOf = [r]) :
-    runChain cap url method hs t l s .pass
+    runChain cap url method t l s hs .pass
       = ({ s with lim := (pluginStep cap s.lim r hs t).1 }, toDAns (pluginStep cap s.lim r hs t).2) := by
   induction l generalizing s with
   | nil => simp at h
@@ -89,7 +91,8 @@ theorem runChain_single_throttle (cap : CapFn) (url method : String) (hs : List 
       simp only [List.filterMap_cons, hr] at h
       have htr : isTransparent p = true := by
         have := hp.1; simp only [plain, hr, Option.isSome_none, Bool.or_false] at this; exact this
-      simp only [runChain, stepPol_transparent cap url method hs t p s htr]
+      obtain ⟨rep, hst⟩ := stepPol_transparent cap url method hs t p s htr
+      simp only [runChain, hst]
       exact ih s hp.2 h
     | some r' =>
       simp only [List.filterMap_cons, hr, List.cons.injEq] at h
